@@ -176,7 +176,7 @@ impl Unreal2State {
                 2 => UStr::plain("GamePassword"),
                 3 => UStr::plain("RepeatedKey"),
                 _ => {
-                    let mut k = gen_any(t, 30);
+                    let mut k = if gen::tame_keys() { UStr::plain(&gen::word(t, 12)) } else { gen_any(t, 30) };
                     if k.visible().eq_ignore_ascii_case("mutator") || k.visible() == "GamePassword" {
                         k = UStr::plain("other");
                     }
